@@ -206,6 +206,36 @@ def run_ladim(conf_file: Path, cwd: Path | None = None) -> RunResult:
     return RunResult("ok")
 
 
+def to_v1(conf: dict[str, Any]) -> dict[str, Any]:
+    """The legacy (version 1) spelling of a simple version-2 configuration built by build_config (forward time, stock ROMS modules).
+    The release file's header line is moved into the configuration (v1 names the columns there)."""
+    rf = Path(conf["release"]["release_file"])
+    names = conf["release"].get("names")
+    if not names:
+        lines = rf.read_text().splitlines()
+        names = lines[0].split()
+        rf.write_text("\n".join(lines[1:]) + "\n")
+    out = conf["output"]
+    ivars = list(out["instance_variables"])
+    pvars = list(out.get("particle_variables") or {})
+    v1: dict[str, Any] = dict(
+        time_control=dict(start_time=conf["time"]["start"], stop_time=conf["time"]["stop"]),
+        files=dict(particle_release_file=str(rf), output_file=str(out["filename"])),
+        gridforce=dict(module="ladim1.gridforce.ROMS", input_file=str(conf["forcing"]["filename"]), gridfile=str(conf["grid"]["filename"])),
+        numerics=dict(dt=conf["time"]["dt"], advection=conf["tracker"].get("advection", "EF"), diffusion=conf["tracker"].get("diffusion", 0.0)),
+        particle_release=dict(variables=list(names), release_time="time", particle_variables=pvars),
+        output_variables=dict(outper=out["output_period"] if isinstance(out["output_period"], list) else [int(out["output_period"]), "s"], format="NETCDF4", instance=ivars, particle=pvars))
+    if conf["time"].get("reference"):
+        v1["time_control"]["reference_time"] = conf["time"]["reference"]
+    if conf["grid"].get("subgrid"):
+        v1["gridforce"]["subgrid"] = conf["grid"]["subgrid"]
+    if conf["release"].get("continuous"):
+        v1["particle_release"].update(release_type="continuous", release_frequency=conf["release"]["release_frequency"])
+    for k, vc in list(out["instance_variables"].items()) + list((out.get("particle_variables") or {}).items()):
+        v1["output_variables"][k] = dict(ncformat=vc["encoding"]["datatype"], **(vc.get("attributes") or {"long_name": k}))
+    return v1
+
+
 def run_two_models_alive(conf_a: Path, conf_b: Path, cwd: Path, steps_a_first: int = 2) -> RunResult:
     """Two Model objects alive in one process: A is built and stepped a little, then B is built, then both are stepped in turn and finished
     (what a script that couples or compares two simulations does).  Same error classification as run_ladim."""
